@@ -62,8 +62,8 @@ ANCHORS = [
 
 def plan(tier):
     if tier == "quick":
-        return {"shards": 16, "docs": 40, "values": 8, "cli_every": 20, "timeout": 300, "mirror": True}
-    return {"shards": 16, "docs": 1500, "values": 10, "cli_every": 60, "timeout": 3000, "mirror": True}
+        return {"shards": 16, "docs": 40, "values": 8, "cli_every": 20, "timeout": 900, "mirror": True}
+    return {"shards": 16, "docs": 1500, "values": 10, "cli_every": 60, "timeout": 7200, "mirror": True}
 
 
 def f22_titles_in(resolved):
